@@ -14,6 +14,8 @@ structure Hyp where
   noPreempt : Bool := false
   faultFree : Bool := false
   connOnly : Bool := false
+  maxLat : Nat := 0
+  faultsEnd : Nat := 0
   deriving Repr, Inhabited
 
 structure MState where
@@ -94,6 +96,14 @@ def c02 (w : World) (h : Hyp) : World :=
       else acc) w
     w1
 
+/-- C19: contexts of the term that is ending now which were cancelled strictly earlier. -/
+def earlyCancelled (w : World) (x : InstW) (now : Nat) : World :=
+  x.ctxs.foldl (fun acc c =>
+    match c.cancelledEarly with
+    | some tc => checkW acc (c.termEnded || decide (tc ≥ now)) "C19" "context-cancelled-while-leading"
+        s!"instance {x.cfg.id}: promotion context {c.cid} (token {c.tok}) was cancelled at {tc}, the term ended at {now}, the callback was still running"
+    | none => acc) w
+
 /-- End of a term of instance `i` (flag cleared or stop): mark its promotion contexts. -/
 def endTerm (x : InstW) : InstW :=
   { x with ctxs := x.ctxs.map fun c => { c with termEnded := true }, healthRun := 0 }
@@ -107,12 +117,60 @@ def graceOf (c : InstCfg) : Nat := if c.grace ≠ 0 then c.grace else max (3 * c
     100 ms settle + 2 s verification time-out + one heartbeat interval of slack. -/
 def verifyWindow (c : InstCfg) : Nat := 100000000 + 2000000000 + c.hb
 
+/-- Heartbeat operation time-out: max(H/2, 1 s). -/
+def hbTimeout (c : InstCfg) : Nat := max (c.hb / 2) 1000000000
+
+def healthThreshold (c : InstCfg) : Nat := if c.maxFail = 0 then 3 else c.maxFail
+
+def earlier (a : Option (Nat × String)) (b : Nat × String) : Option (Nat × String) :=
+  match a with
+  | some (d, why) => if d ≤ b.1 then some (d, why) else some b
+  | none => some b
+
+/-- C06 bound after a vacancy: periodic check (500 ms) + maximum jitter (100 ms) + operation latencies. -/
+def vacancyBound (h : Nat) : Nat := 500000000 + 100000000 + 3 * h
+
 def recordIsMine (w : World) (x : InstW) : Bool :=
   match w.live x.cfg.key with
   | some r => (match r.val with | .own id t _ => id == x.cfg.id && t == x.flagTok | _ => false)
   | none => false
 
 /-- Deadlines that have passed when the clock reaches `t` (checked before the event at `t` is processed). -/
+def deadlinesHB (w : World) (t : Nat) : World :=
+  w.insts.foldl (fun acc x =>
+    -- a refresh attempt that was not answered within the time-out counts as failed at that instant
+    let (acc, x) := match x.hbPending with
+      | some (_, ct) =>
+        if ct + hbTimeout x.cfg ≤ t ∧ x.flag then
+          let fails := x.hbFails + 1
+          let x1 := { x with hbPending := none, hbFails := fails,
+                             demoteDue := if fails ≥ 3 then earlier x.demoteDue (ct + hbTimeout x.cfg, "third consecutive failed heartbeat attempt") else x.demoteDue }
+          let acc := if fails ≥ 3 then acc.hit "C03b:third-failure" else acc.hit "C03b:timed-out-attempt"
+          let acc := acc.setInst x1
+          let acc := checkW acc (!(fails ≥ 3) || decide (ct + hbTimeout x.cfg ≤ x.hbLastOkStart + 3 * x.cfg.hb + 3 * hbTimeout x.cfg))
+                       "C03" "third-failure-later-than-3H+3T" s!"instance {x.cfg.id}: third failed attempt completes at {ct + hbTimeout x.cfg}, last successful refresh started at {x.hbLastOkStart}"
+          (acc, x1)
+        else (acc, x)
+      | none => (acc, x)
+    match x.demoteDue with
+    | some (d, why) =>
+      if d < t then
+        let acc := acc.updInst x.cfg.id fun y => { y with demoteDue := none }
+        checkW acc (!x.flag) "C03" "still-claiming-after-deadline" s!"instance {x.cfg.id} still reports leadership after {d} ({why})"
+      else acc
+    | none => acc) w
+
+def deadlinesVacancy (w : World) (h : Nat) (faultsEnd : Nat) (t : Nat) : World :=
+  if h = 0 then w else
+  w.vacantSince.foldl (fun acc (kv : String × Nat) =>
+    let cands := acc.insts.filter fun x => x.cfg.key == kv.1 && x.everStarted && x.stopCalledSince.isNone && !x.cut && !x.flag &&
+      !(acc.ops.any fun p => p.inst == x.cfg.id && (p.applied == some Applied.dropped || decide (p.issued < faultsEnd)))
+    let since := cands.foldl (fun m x => min m (max x.candidateSince (max kv.2 faultsEnd))) (t + 1)
+    if !cands.isEmpty ∧ since + vacancyBound h < t then
+      let acc := { acc with vacantSince := acc.vacantSince.map fun p => if p.1 == kv.1 then (p.1, t) else p }
+      failW acc "C06" "vacancy-not-filled" s!"key {kv.1} vacant since {kv.2} (candidates healthy since {since}), nobody leads at {t}; candidates {cands.map (·.cfg.id)}"
+    else acc) w
+
 def deadlines (w : World) (t : Nat) : World :=
   w.insts.foldl (fun acc x =>
     let acc := match x.graceDue with
@@ -130,22 +188,70 @@ def deadlines (w : World) (t : Nat) : World :=
       else acc
     | none => acc) w
 
-/-- After any change of the store: a record that is (again) the instance's own ends "never mine". -/
+/-- After any change of the store: a record that is (again) the instance's own ends "never mine";
+    vacancies are (un)registered; validate calls in progress note what they could have seen. -/
 def verifyTrack (w : World) : World :=
-  { w with insts := w.insts.map fun x =>
+  let w := { w with insts := w.insts.map fun (x : InstW) =>
       match x.verifyOpen with
       | some (r, true) => if recordIsMine w x then { x with verifyOpen := some (r, false) } else x
       | _ => x }
+  let keys := (w.insts.map fun (x : InstW) => x.cfg.key).eraseDups
+  let vac := keys.filterMap fun k =>
+    match w.live k with
+    | some _ => none
+    | none => match w.vacantSince.lookup k with
+      | some t => some (k, t)
+      | none => some (k, w.now)
+  let w := { w with vacantSince := vac }
+  let own := keys.filterMap fun k =>
+    match w.live k with
+    | none => none
+    | some r =>
+      let id : Int := match r.val.mapView with | (true, mid, _) => mid | _ => -1
+      match w.ownerSince.lookup k with
+      | some (oid, t) => if oid = id then some (k, oid, t) else some (k, id, w.now)
+      | none => some (k, id, w.now)
+  let w := { w with ownerSince := own }
+  { w with apis := w.apis.map fun (a : ApiCall) =>
+      match a.kind with
+      | ApiKind.validate | ApiKind.validateOrDemote =>
+        (match w.inst? a.inst with
+         | some x => (match w.live x.cfg.key with
+            | some r => (match r.val.mapView with
+                | (true, mid, mtok) => if mid = (a.inst : Int) ∧ mtok ≥ 0 then { a with sawValid := mtok.toNat :: a.sawValid } else a
+                | _ => a)
+            | none => a)
+         | none => a)
+      | _ => a }
+
+/-- C03(a): the record of a claiming instance was replaced / deleted / expired underneath it. -/
+def recordLost (w : World) (h : Hyp) (key : String) (before : Option Rec) : World :=
+  match before with
+  | some r =>
+    (match r.val with
+     | .own id tok _ =>
+       (match w.inst? id with
+        | some x =>
+          if x.flag ∧ x.flagTok = tok ∧ x.cfg.key = key ∧ ¬ x.cut ∧ w.now ≥ h.faultsEnd ∧ h.maxLat > 0 ∧ ¬ recordIsMine w x then
+            let w := w.hit "C03a:record-lost-under-leader"
+            w.setInst { x with lostAt := some w.now,
+                               demoteDue := earlier x.demoteDue (w.now + x.cfg.hb + 2 * hbTimeout x.cfg, "its record was replaced, deleted or expired") }
+          else w
+        | none => w)
+     | _ => w)
+  | none => w
 
 /-- One visible event. -/
 def step (m : MState) (e : TEv) : MState :=
   let w0 := deadlines { m.w with line := m.w.line + 1 } e.t
+  let w0 := deadlinesHB w0 e.t
+  let w0 := deadlinesVacancy w0 m.hyp.maxLat m.hyp.faultsEnd e.t
   let w0 := { w0 with now := e.t }
   let h := m.hyp
   -- after `end` the harness tears the scenario down (stops every instance); only the final goroutine count matters
   if m.w.ended && (match e.ev with | .gor _ => false | _ => true) then { m with w := w0 } else
   match e.ev with
-  | .hyp a b c d f => { m with w := w0, hyp := ⟨a, b, c, d, f⟩ }
+  | .hyp a b c d f ml fe => { m with w := w0, hyp := ⟨a, b, c, d, f, ml, fe⟩ }
   | .inst c => { m with w := { w0 with insts := w0.insts ++ [{ cfg := c }] } }
   | .call op i kind key exp val =>
     let w := { w0 with ops := { id := op, inst := i, kind := kind, key := key, exp := exp, val := val, issued := e.t } :: w0.ops }
@@ -153,7 +259,15 @@ def step (m : MState) (e : TEv) : MState :=
       | some x =>
         -- C09: no new store operation after a stop returned (until the next Start)
         let w := checkW w (x.stoppedSince.isNone) "C09" "store-op-after-stop" s!"instance {i} issues {repr kind} after its stop returned"
-        w
+        -- C13: no spinning — more than 60 store calls of one instance within 100 ms is not timer-paced activity
+        let recent := e.t :: (x.recentCalls.filter fun t => t + 100000000 > e.t)
+        let w := checkW w (recent.length ≤ 60 || x.recentCalls.length > 60) "C13" "store-hammering" s!"instance {i} issued {recent.length} store operations within 100 ms"
+        let x := { x with recentCalls := recent }
+        let w := w.setInst x
+        let isRefreshAttempt := kind == .update && x.flag && (match val with | .own id tok _ => id == i && tok == x.flagTok | _ => false)
+        if isRefreshAttempt then
+          w.setInst { x with hbPending := some (op, e.t) }
+        else w
       | none => w
     { m with w := w }
   | .apply op a =>
@@ -170,6 +284,10 @@ def step (m : MState) (e : TEv) : MState :=
         match p.kind, w.inst? p.inst with
         | .create, some x | .update, some x | .delete, some x =>
           let (ok, why) := legit w x p
+          let w := w.hit (match p.kind with
+            | .create => "C01:create"
+            | .update => if isRefresh w x p then "C01:refresh" else "C01:takeover"
+            | _ => "C01:delete")
           let w := checkW w ok "C01" (if p.kind = .update ∧ ¬ isRefresh w x p then "illegitimate-takeover" else "illegitimate-mutation")
                     s!"instance {x.cfg.id} {repr p.kind} exp={p.exp} val={repr p.val} over {repr (w.live p.key)}: {why}"
           -- C05: acquisitions publish a never-seen token; refreshes republish the same one
@@ -181,7 +299,9 @@ def step (m : MState) (e : TEv) : MState :=
             | _, _ => w
           let newVal := if p.kind = .delete then none else some p.val
           let kind : MutKind := match p.kind with | .create => .create | .update => .update | _ => .delete
+          let beforeRec := w.live p.key
           let w := w.mutate p.inst kind p.key p.exp newVal
+          let w := recordLost w h p.key beforeRec
           let w := match p.val with
             | .own _ tok _ => if p.kind = .delete then w else w.updInst p.inst fun y => { y with lastOwnTok := tok }
             | _ => w
@@ -201,6 +321,34 @@ def step (m : MState) (e : TEv) : MState :=
       let w := match r, p.kind with
         | .ok rev _, .create | .ok rev _, .update => w.updInst p.inst fun y => { y with lastAckRev := rev }
         | _, _ => w
+      -- C06: an instance that has just seen a store failure counts as a healthy candidate from now on at the earliest
+      let w := match r with
+        | .err k => if k = ErrKind.timeout ∨ k = ErrKind.noresponders ∨ k = ErrKind.closed ∨ k = ErrKind.other
+                    then w.updInst p.inst fun y => { y with candidateSince := max y.candidateSince e.t } else w
+        | _ => w
+      let w := match w.inst? p.inst with
+        | some x =>
+          (match x.hbPending with
+           | some (hop, ct) =>
+             if hop = op ∧ x.flag then
+               if e.t > ct + hbTimeout x.cfg then w   -- answered after the time-out: already counted as failed, the answer is discarded
+               else
+                 match r with
+                 | .ok _ _ => w.setInst { x with hbPending := none, hbFails := 0, hbLastOkStart := ct }
+                 | .err k =>
+                   if k = ErrKind.wrongseq ∨ k = ErrKind.notfound then
+                     let w := w.hit "C03a:refresh-refused"
+                     w.setInst { x with hbPending := none, demoteDue := earlier x.demoteDue (e.t, "its refresh was refused (record changed)") }
+                   else
+                     let fails := x.hbFails + 1
+                     let w := checkW w (!(fails ≥ 3) || decide (e.t ≤ x.hbLastOkStart + 3 * x.cfg.hb + 3 * hbTimeout x.cfg))
+                                "C03" "third-failure-later-than-3H+3T" s!"instance {x.cfg.id}: third failed attempt completes at {e.t}, last successful refresh started at {x.hbLastOkStart}"
+                     let w := if fails ≥ 3 then w.hit "C03b:third-failure" else w.hit "C03b:failed-attempt"
+                     w.setInst { x with hbPending := none, hbFails := fails,
+                                        demoteDue := if fails ≥ 3 then earlier x.demoteDue (e.t, "third consecutive failed heartbeat attempt") else x.demoteDue }
+             else w
+           | none => w)
+        | none => w
       -- C02 hypothesis "responsive": every answer within H/2
       let w := match w.inst? p.inst with
         | some x => if h.responsive ∧ p.kind ≠ .watch ∧ e.t - p.issued > x.cfg.hb / 2
@@ -209,16 +357,16 @@ def step (m : MState) (e : TEv) : MState :=
       { m with w := w }
   | .expire key rev =>
     let w := match w0.live key with
-      | some r => if r.rev = rev then w0.mutate 0 .expire key 0 none
+      | some r => if r.rev = rev then recordLost (w0.mutate 0 .expire key 0 none) h key (some r)
                   else { w0 with storeMismatch := s!"line {w0.line}: expire of {key} rev {rev} but live rev is {r.rev}" :: w0.storeMismatch }
       | none => { w0 with storeMismatch := s!"line {w0.line}: expire of absent {key}" :: w0.storeMismatch }
     { m with w := c02 (verifyTrack w) h }
   | .extPut key _ val =>
     let w := checkW w0 (¬ h.noOutside) "HYP" "no-outside-writer" "ext put"
-    { m with w := c02 (verifyTrack (w.mutate 0 .extPut key 0 (some val))) h }
+    { m with w := c02 (verifyTrack (recordLost (w.mutate 0 .extPut key 0 (some val)) h key (w.live key))) h }
   | .extDelete key _ =>
     let w := checkW w0 (¬ h.noOutside) "HYP" "no-outside-writer" "ext delete"
-    { m with w := c02 (verifyTrack (w.mutate 0 .extDelete key 0 none)) h }
+    { m with w := c02 (verifyTrack (recordLost (w.mutate 0 .extDelete key 0 none) h key (w.live key))) h }
   | .wev _ _ _ _ => { m with w := w0 }
   | .wdrop _ _ _ => { m with w := w0 }
   | .flag i b il tok lid =>
@@ -235,14 +383,31 @@ def step (m : MState) (e : TEv) : MState :=
         let w := checkW w (lid = i) "C18" "leader-leaderid" s!"instance {i} is leader but LeaderID() is {lid}"
         let w := checkW w (¬ x.flag ∨ x.flagTok = tok) "C05" "token-changed-within-term" s!"instance {i}: token {x.flagTok} → {tok} while leading"
         let w := checkW w (x.flag ∨ ¬ x.claimedToks.contains tok) "C05" "token-reclaimed" s!"instance {i} starts a second term with token {tok}"
-        let w := w.setInst { x with flag := true, flagTok := tok, gauge := b, claimedToks := tok :: x.claimedToks, healthRun := if x.flag then x.healthRun else 0 }
+        let w := w.setInst { x with flag := true, flagTok := tok, gauge := b, claimedToks := tok :: x.claimedToks,
+                                     healthRun := if x.flag then x.healthRun else 0,
+                                     lastHealthAt := if x.flag then x.lastHealthAt else none,
+                                     hbLastOkStart := if x.flag then x.hbLastOkStart else e.t,
+                                     hbFails := if x.flag then x.hbFails else 0,
+                                     hbPending := if x.flag then x.hbPending else none }
+        let w := if x.flag then w else w.hit "C05:term-started"
+        let w := if (w.vacantSince.any (·.1 == x.cfg.key)) then w.hit "C06:vacancy-filled" else w
+        let w := { w with vacantSince := w.vacantSince.filter (·.1 != x.cfg.key) }
         { m with w := c02 (verifyTrack w) h }
       else
         let x' := if x.flag then endTerm x else x
+        let w := if x.flag then earlyCancelled w x e.t else w
+        let w := if x.flag ∧ x.graceDue == some e.t then w.hit "C11:grace-demotion" else w
+        let w := if x.flag ∧ x.lastHealthAt == some (e.t, false) then w.hit "C12:health-demotion" else w
+        let w := if x.flag ∧ x.stopCalledSince.isNone then w.hit "C08:demotion-not-by-stop" else w
         -- C11: with nothing but connection notifications going on, the only demotion is the grace expiry, at exactly its instant
         let w := checkW w (!(h.connOnly && x.flag && x.stopCalledSince.isNone) || x.graceDue == some e.t) "C11" "demoted-outside-grace-expiry"
                    s!"instance {i} is demoted at {e.t}; latest disconnect {repr x.discAt}, grace deadline {repr x.graceDue}"
-        let w := w.setInst { x' with flag := false, gauge := b, graceDue := none, verifyOpen := none }
+        -- C12: a demotion on a tick whose health check failed, below the threshold, with no other cause due
+        let w := checkW w (!(x.flag && x.stopCalledSince.isNone && x.lastHealthAt == some (e.t, false) && decide (x.healthRun < healthThreshold x.cfg)
+                              && (match x.demoteDue with | some (d, _) => decide (d > e.t) | none => true)))
+                   "C12" "health-demotion-before-threshold" s!"instance {i} demoted after {x.healthRun} consecutive unhealthy checks of this term, threshold {healthThreshold x.cfg}"
+        let w := w.setInst { x' with flag := false, gauge := b, graceDue := none, verifyOpen := none, demoteDue := none, lostAt := none,
+                                      hbPending := none, hbFails := 0, lastHealthAt := none, candidateSince := e.t }
         -- C07: in fault-free operation a leader is never demoted before it is stopped
         let w := checkW w (¬ (h.faultFree ∧ x.flag ∧ x.stopCalledSince.isNone)) "C07" "leader-demoted-fault-free"
                    s!"instance {i} (token {x.flagTok}) loses leadership without being stopped"
@@ -269,14 +434,13 @@ def step (m : MState) (e : TEv) : MState :=
   | .promoteRet i cid =>
     { m with w := w0.updInst i fun x => { x with ctxs := x.ctxs.map fun c => if c.cid = cid then { c with cbRunning := false } else c } }
   | .ctxDone i cid =>
-    match w0.inst? i with
-    | none => { m with w := w0 }
-    | some x =>
-      let w := match x.ctxs.find? (·.cid = cid) with
-        | some c => checkW w0 (c.termEnded ∨ ¬ c.cbRunning ∨ x.stopsInProgress > 0) "C19" "context-cancelled-while-leading"
-                      s!"instance {i}: promotion context {cid} cancelled while the term (token {c.tok}) is in progress and the callback runs"
-        | none => w0
-      { m with w := w.updInst i fun x => { x with ctxs := x.ctxs.map fun c => if c.cid = cid then { c with cancelled := true } else c } }
+    -- A cancellation at the very instant the term ends is fine (same-instant order is scheduling); one that is
+    -- strictly earlier than the end of the term is reported when the term ends (or at the end of the trace).
+    { m with w := w0.updInst i fun x => { x with ctxs := x.ctxs.map fun c =>
+        if c.cid = cid then
+          { c with cancelled := true,
+                   cancelledEarly := if !c.termEnded && c.cbRunning && x.stopsInProgress == 0 then some e.t else none }
+        else c } }
   | .demote i =>
     match w0.inst? i with
     | none => { m with w := w0 }
@@ -295,11 +459,11 @@ def step (m : MState) (e : TEv) : MState :=
                                     | none => false),
                                   tokAtCall := (match w0.inst? i with | some x => x.flagTok | none => 0) } :: w0.apis }
     let w := match k with
-      | .start => w.updInst i fun x => { x with stoppedSince := none, stopCalledSince := none, everStarted := true, lastTo := 1 }
-      | .stop | .stopctx _ _ _ _ => w.updInst i fun x =>
+      | .start => w.updInst i fun x => { x with stoppedSince := none, stopCalledSince := none, everStarted := true, lastTo := 1, startedAt := e.t, candidateSince := e.t }
+      | .validate | .validateOrDemote => verifyTrack w
+      | .stop | .stopctx _ _ _ _ => (match w.inst? i with | some x => earlyCancelled w x e.t | none => w).updInst i fun x =>
           let y := endTerm x
           { y with stopsInProgress := x.stopsInProgress + 1, stopCalledSince := some e.t, graceDue := none, verifyOpen := none }
-      | _ => w
     { m with w := w }
   | .apiRet n i r =>
     match w0.apis.find? (·.n = n), w0.inst? i with
@@ -318,7 +482,13 @@ def step (m : MState) (e : TEv) : MState :=
             | none => false
           checkW w (!(del && mine && a.ownerAtCall)) "C09" "record-survives-deletekey" s!"instance {i}: its record is still live when StopWithContext(DeleteKey) returns"
         | .stop, _ | .stopctx _ _ _ _, _ => w.setInst { x with stopsInProgress := x.stopsInProgress - 1 }
-        | .validateOrDemote, .verdict v _ il =>
+        | .validate, .verdict true tok _ =>
+          checkW (w.hit "C04:validate-true")  (tok != 0 && a.sawValid.contains tok && a.flagAtCall && tok == a.tokAtCall) "C04" "validate-true-unsound"
+            s!"instance {i}: ValidateToken returned true for token {tok}, but during the call the record never held its id with that token (seen: {a.sawValid}; leader at call: {a.flagAtCall}, term token {a.tokAtCall})"
+        | .validateOrDemote, .verdict v tok il =>
+          let w := w.hit (if v then "C04:or-demote-true" else if a.flagAtCall then "C04:or-demote-false-leader" else "C04:or-demote-false-follower")
+          let w := checkW w (!v || (tok != 0 && a.sawValid.contains tok && a.flagAtCall && tok == a.tokAtCall)) "C04" "validate-true-unsound"
+            s!"instance {i}: ValidateTokenOrDemote returned true for token {tok}, but during the call the record never held its id with that token (seen: {a.sawValid})"
           let w := checkW w (v ∨ ¬ il) "C04" "or-demote-still-leader" s!"instance {i}: ValidateTokenOrDemote returned false but IsLeader() is still true"
           checkW w (v ∨ ¬ a.flagAtCall ∨ x.demotes > a.demotesAtCall ∨ x.stopsInProgress > 0 ∨ ¬ x.termOpen ∨ x.cfg.id = 0)
             "C04" "or-demote-no-callback" s!"instance {i}: ValidateTokenOrDemote returned false for a leader but no demotion callback ran"
@@ -338,6 +508,17 @@ def step (m : MState) (e : TEv) : MState :=
       let w := checkW w (¬ il ∨ busy ∨ rev = x.lastAckRev) "C18" "leader-revision" s!"instance {i} leads but Status().Revision={rev}, latest acknowledged own write is {x.lastAckRev}"
       let w := checkW w (x.stoppedSince.isNone ∨ (st = 5 ∧ ¬ il)) "C18" "not-stopped-after-stop" s!"instance {i}: state {st} IsLeader={il} after its stop returned"
       let w := checkW w (x.gauge = il2 ∨ ¬ x.everStarted) "C18" "gauge-stale" s!"instance {i}: gauge {x.gauge} IsLeader() {il2} at a quiescent point"
+      -- C18: a follower's LeaderID converges to the id in the live record (one periodic check + latencies)
+      let w := match w.ownerSince.lookup x.cfg.key with
+        | some (oid, since) =>
+          let settle := 500000000 + 3 * h.maxLat
+          if h.maxLat > 0 ∧ oid > 0 ∧ ¬ il2 ∧ x.everStarted ∧ x.stopCalledSince.isNone ∧ ¬ x.cut ∧ e.t ≥ h.faultsEnd + settle ∧
+             since + settle < e.t ∧ x.candidateSince + settle < e.t ∧
+             ¬ (w.ops.any fun p => p.inst == i && (p.applied == some Applied.dropped || decide (p.issued < h.faultsEnd)))
+          then checkW w (lid == oid.toNat) "C18" "follower-leaderid-not-converged"
+                 s!"instance {i} is a follower since {x.candidateSince}; the record has named {oid} since {since}; LeaderID={lid}"
+          else w
+        | none => w
       -- C08: outside a stop call, leadership ⇔ promotions outnumber demotions by one
       let w := if x.stopsInProgress = 0 ∧ x.everStarted ∧ x.cfg.id ≠ 0 then
                  checkW w (il2 = decide (x.promotes = x.demotes + 1) ∨ x.promotes = 0 ∧ x.demotes = 0 ∧ ¬ il2 ∨ x.stoppedSince.isSome ∧ ¬ il2 ∧ x.promotes ≤ x.demotes + 1)
@@ -349,24 +530,32 @@ def step (m : MState) (e : TEv) : MState :=
       { m with w := w }
   | .health i _ res rem =>
     let w := checkW w0 (rem ≤ 100000000 ∧ rem ≥ 0) "C12" "health-deadline" s!"instance {i}: health check context expires in {rem} ns"
-    { m with w := w.updInst i fun x => { x with healthRun := if res then 0 else x.healthRun + 1 } }
+    let w := w.hit (if res then "C12:healthy" else "C12:unhealthy")
+    { m with w := w.updInst i fun x =>
+        let run := if res then 0 else x.healthRun + 1
+        { x with healthRun := run, lastHealthAt := some (e.t, res),
+                 demoteDue := if !res && decide (run ≥ healthThreshold x.cfg) then earlier x.demoteDue (e.t, "health threshold reached") else x.demoteDue } }
   | .conn i k =>
     match w0.inst? i with
     | none => { m with w := w0 }
     | some x =>
       match k with
       | .disconnect =>
-        { m with w := w0.setInst { x with discAt := some e.t, graceDue := if x.flag then some (e.t + graceOf x.cfg) else x.graceDue, verifyOpen := none } }
+        let w1 := if x.flag then w0.hit "C11:disconnect-while-leading" else w0
+        { m with w := w1.setInst { x with discAt := some e.t, graceDue := if x.flag then some (e.t + graceOf x.cfg) else x.graceDue, verifyOpen := none } }
       | .reconnect =>
         let x1 := { x with graceDue := none, verifyOpen := if x.flag then some (e.t, !(recordIsMine w0 x)) else none }
-        { m with w := w0.setInst x1 }
+        let w1 := if x.flag then w0.hit "C11:reconnect-while-leading" else w0
+        { m with w := w1.setInst x1 }
       | .closed => { m with w := w0 }
   | .crash i => { m with w := w0.updInst i fun x => { x with cut := true } }
-  | .partition i on => { m with w := w0.updInst i fun x => { x with cut := on } }
+  | .partition i on => { m with w := w0.updInst i fun x => { x with cut := on, candidateSince := e.t } }
   | .watchFail _ _ => { m with w := w0 }
   | .panic i => { m with w := failW w0 "C13" "panic" s!"instance {i} panicked" }
   | .newErr _ => { m with w := w0 }
-  | .end_ => { m with w := { w0 with ended := true } }
+  | .end_ =>
+    let w := w0.insts.foldl (fun acc x => earlyCancelled acc x (e.t + 1)) w0
+    { m with w := { w with ended := true } }
   | .gor n => { m with w := checkW w0 (n = 0) "C09" "goroutines-left" s!"{n} library goroutines alive after every instance was stopped and all operations returned" }
 
 def run (tr : Trace) : MState := tr.foldl step {}
